@@ -41,7 +41,9 @@ const (
 // It returns the type as written by source A and as written by source B (they differ for aliases).
 func contested(b *ir.Builder, p *ir.Pkg, k1, k2, tk int) (ta, tb *ir.Type, ok bool) {
 	has := func(k int) bool { return k1 == k || k2 == k }
-	canIface := func(k int) bool { return k == sFunc || k == sField || k == sParam || k == sBind || k == sIfaceValue || k == sSameSet }
+	canIface := func(k int) bool {
+		return k == sFunc || k == sField || k == sParam || k == sBind || k == sIfaceValue || k == sSameSet
+	}
 	canAgg := func(k int) bool {
 		return k == sFunc || k == sValue || k == sField || k == sParam || k == sStructV || k == sStructP || k == sSameSet || k == sPtrField
 	}
@@ -286,40 +288,53 @@ func checkC05(c *h.Check) {
 		if k1 == sSameSet {
 			k2 = sSameSet
 		}
-		prog := conflictProgram(k1, k2, ch["place"], ch["type"], ch["order"])
-		if prog == nil {
-			return
-		}
-		id := fmt.Sprintf("C05/pair=%s+%s/place=%s/type=%d/order=%d", srcNames[k1], srcNames[k2], placementNames[ch["place"]], ch["type"], ch["order"])
-		cs := caseFromProgram(id, prog, false, nil)
-		// the model must call it a conflict, otherwise the family is wrong
-		m := ir.NewModel()
-		w := m.Solve(prog.Injectors[0])
-		conflict := false
-		for _, r := range w.Reasons {
-			if r.Class == "conflict" {
-				conflict = true
+		// pv: how the injector's parameters are written (named / blank identifier / unnamed); only for programs that have one
+		for pv := 0; pv < 3; pv++ {
+			prog := conflictProgram(k1, k2, ch["place"], ch["type"], ch["order"])
+			if prog == nil {
+				return
 			}
-		}
-		if !conflict {
-			c.Internalf("family bug: %s is not a conflict in the model: %v", id, w.Reasons)
-			return
-		}
-		// C05 oracle: only the conflict reasons count ("multiple bindings" naming the type)
-		var reasons []ir.Reason
-		for _, r := range w.Reasons {
-			if r.Class == "conflict" {
-				reasons = append(reasons, r)
+			id := fmt.Sprintf("C05/pair=%s+%s/place=%s/type=%d/order=%d", srcNames[k1], srcNames[k2], placementNames[ch["place"]], ch["type"], ch["order"])
+			if pv > 0 {
+				inj := prog.Injectors[0]
+				if len(inj.Params) == 0 {
+					return
+				}
+				for i := range inj.Params {
+					inj.Params[i].Name = []string{"", "", "-"}[pv]
+				}
+				id += "/params=" + []string{"", "blank", "unnamed"}[pv]
 			}
-		}
-		cs.Judge = func(r *h.Result) []h.Violation { return judgeVerdict(r, reasons) }
-		if c.NoteProgram(cs.Files) {
-			cases = append(cases, cs)
-			a, bb := k1, k2
-			if a > bb {
-				a, bb = bb, a
+			cs := caseFromProgram(id, prog, false, nil)
+			// the model must call it a conflict, otherwise the family is wrong
+			m := ir.NewModel()
+			w := m.Solve(prog.Injectors[0])
+			conflict := false
+			for _, r := range w.Reasons {
+				if r.Class == "conflict" {
+					conflict = true
+				}
 			}
-			pairs[fmt.Sprintf("%s+%s", srcNames[a], srcNames[bb])] = true
+			if !conflict {
+				c.Internalf("family bug: %s is not a conflict in the model: %v", id, w.Reasons)
+				return
+			}
+			// C05 oracle: only the conflict reasons count ("multiple bindings" naming the type)
+			var reasons []ir.Reason
+			for _, r := range w.Reasons {
+				if r.Class == "conflict" {
+					reasons = append(reasons, r)
+				}
+			}
+			cs.Judge = func(r *h.Result) []h.Violation { return judgeVerdict(r, reasons) }
+			if c.NoteProgram(cs.Files) {
+				cases = append(cases, cs)
+				a, bb := k1, k2
+				if a > bb {
+					a, bb = bb, a
+				}
+				pairs[fmt.Sprintf("%s+%s", srcNames[a], srcNames[bb])] = true
+			}
 		}
 	})
 	// one wire.FieldsOf call listing two (or three) fields of identical type; and the same set passed twice by name
@@ -408,7 +423,7 @@ func checkC05(c *h.Check) {
 	c.Coverage["programs_rejected"] = rej
 	c.Coverage["unordered_kind_pairs_covered"] = len(pairs)
 	c.Coverage["explorer"] = map[string]interface{}{"executions": st.Executions, "skipped": st.Skipped, "mode": "full product"}
-	c.Coverage["rule"] = "ordered pairs over 10 source kinds (func, struct value, struct pointer, value, interface value, binding, field, pointer-to-field, injector parameter, same set twice) x 6 placements x 5 contested type kinds (named, pointer, alias vs. original, []T written twice, interface) x 2 argument orders; inexpressible combinations skipped by the renderer; plus one set reached by its own name and through an aliasing variable, one wire.FieldsOf call listing several fields of identical type, and a conflict inside a set of another package used by two identical root packages of one invocation (both must be rejected alike). Every program must be rejected with a 'multiple bindings' diagnostic naming the contested type and must not produce output. Distinct = distinct rendered source."
+	c.Coverage["rule"] = "ordered pairs over 10 source kinds (func, struct value, struct pointer, value, interface value, binding, field, pointer-to-field, injector parameter, same set twice) x 6 placements x 5 contested type kinds (named, pointer, alias vs. original, []T written twice, interface) x 2 argument orders; inexpressible combinations skipped by the renderer; every program with an injector parameter also with the parameters written with the blank identifier and unnamed; plus one set reached by its own name and through an aliasing variable, one wire.FieldsOf call listing several fields of identical type, and a conflict inside a set of another package used by two identical root packages of one invocation (both must be rejected alike). Every program must be rejected with a 'multiple bindings' diagnostic naming the contested type and must not produce output. Distinct = distinct rendered source."
 	if len(cases) > 0 && len(results) == len(cases) {
 		i := len(cases) / 3
 		c.Samples = append(c.Samples, map[string]interface{}{"case": cases[i].ID, "wire.go": cases[i].Files["wire.go"], "diagnostics": results[i].Root().Diags})
